@@ -6,6 +6,7 @@ mod hid;
 mod psl;
 mod rp;
 mod rpid;
+mod stores;
 mod util;
 
 fn main() {
@@ -20,6 +21,7 @@ fn main() {
         "hid" => hid::main(&args),
         "psl" => psl::main(&args),
         "rpid" => rpid::main(&args),
+        "stores" => stores::main(&args),
         other => {
             eprintln!("pkverif: unknown domain {other}");
             std::process::exit(2);
